@@ -289,6 +289,39 @@ def rule_chebyshev_bounds(ck, units, which=('cheb', 'sib')):
                   '' if ok else 'the statements guarded by `if (scale)` differ between the serial (%s) and the distributed (%s) spectral radius estimate' % (ser[0].where(), dis[0].where()))
 
 
+def rule_ilu_order(ck, units):
+    ck.rule('ilu-multiplier-order', 'incomplete LU factorisations (ilu0, iluk, ilut): the elimination multiplier is (entry) * (inverted pivot D[c]) - the inverted pivot is the RIGHT factor '
+                                    'in every such product of the three sibling constructors (the order matters for block values: (L U)_ic = a_ic needs l_ic = a_ic u_cc^-1)', 3)
+    done = set()
+    for u in units.values():
+        for f in u.funcs:
+            if not (f.cls in ('amgcl::relaxation::ilu0', 'amgcl::relaxation::iluk', 'amgcl::relaxation::ilut') and f.j.get('ctor') and f.cfg is not None) or f.cls in done:
+                continue
+            f = inline.expand(f, inline.same_class_helper())
+
+            def is_D(e):
+                e = unwrap(e)
+                if e is None or e['k'] != 'idx':
+                    return False
+                b = unwrap(e['b'])
+                while b is not None and b['k'] == 'un' and b['op'] == '*':
+                    b = unwrap(b['e'])
+                return b is not None and ((b['k'] == 'mem' and b['n'] == 'D') or (b['k'] == 'ref' and b['n'] == 'D'))
+            sites = []
+            for n in f.nodes.values():
+                if n['k'] == 'bin' and n['op'] == '*' and (is_D(n['x']) != is_D(n['y'])):
+                    other = unwrap(n['y'] if is_D(n['x']) else n['x'])
+                    if other is not None and other['k'] == 'lit':
+                        continue
+                    sites.append((n, is_D(n['y'])))
+            if not sites:
+                continue
+            done.add(f.cls)
+            bad = [n for n, ok in sites if not ok]
+            ck.ob('ilu-multiplier-order', f.cls, f.where(bad[0]) if bad else f.where(), not bad,
+                  '' if not bad else 'at %s the multiplier is `%s`: the inverted pivot is applied from the left (the sibling factorisations apply it from the right)' % (f.where(bad[0]), show(bad[0])[:60]))
+
+
 def main(tier):
     ck = Check('C06', tier, 'C06 (clauses): every relaxation sweep has correction form, so the exact solution is a fixed point; serial and parallel Gauss-Seidel kernels agree.')
     T = os.path.join(ir.VERIF, 'tus')
@@ -314,6 +347,7 @@ def main(tier):
         ck.brk('relaxation classes not instantiated: %s' % missing)
     rule_gs(ck, units)
     rule_chebyshev_bounds(ck, units)
+    rule_ilu_order(ck, units)
     ck.assumptions += ['constant operators of the object (diagonals, approximate inverses, triangular factors) are linear maps: zero in, zero out',
                        'that M is the documented splitting (ILU pattern/values, SPAI least squares, Chebyshev bounds) is numerical and not decided']
     return ck.finish()
